@@ -134,9 +134,11 @@ def taint_from(body, seeds):
     return tainted
 
 
-def ref_source(body, local, depth=0):
+def ref_source(body, local, depth=0, types=None):
     """follow `_x = &mut (*_1).f` / `_x = &mut (*_y)` / `_x = move _y` chains backwards:
-    returns the projection path (list of field names) from an argument local, or None."""
+    returns the projection path (list of field names) from an argument local, or None.
+    With `types` given, `_x = copy/move <place>` is followed only when `_x` is itself a reference
+    or pointer (moving a reference around); a by-value copy of the pointee is a different object."""
     if depth > 12:
         return None
     defs = []
@@ -151,12 +153,14 @@ def ref_source(body, local, depth=0):
         p = rv["place"]
     elif rv["k"] == "use" and rv["op"]["k"] in ("copy", "move"):
         p = rv["op"]["place"]
+        if types is not None and types[body["locals"][local]["ty"]]["k"] not in ("ref", "rawptr", "ptr"):
+            return None
     else:
         return None
     fields = [e.get("name", e.get("i")) for e in p["proj"] if e["k"] == "field"]
     if p["local"] <= body["arg_count"] and p["local"] >= 1:
         return (p["local"], fields)
-    r = ref_source(body, p["local"], depth + 1)
+    r = ref_source(body, p["local"], depth + 1, types)
     if r is None:
         return None
     return (r[0], r[1] + fields)
